@@ -1,6 +1,7 @@
 import CifModel.Lemmas.ParserTop
 import CifModel.Lemmas.ParserQuiet
 import CifModel.Lemmas.ParserConsistent
+import CifModel.Lemmas.ParserRect
 import CifModel.Props.C03Extra
 /-
   Props/C03 — the parser is total and honours the error-callback contract on any input (property C03), as theorems about
@@ -275,16 +276,38 @@ theorem C03_consistent_container (o : Opts) (code : Str) (fs : List Container) (
   rw [OkC_mk, OkCs_iff]
   rfl
 
+/-- rectangularity of a managed CIF (`Lemmas/ParserRect.RectCif`), spelled out: in every container, recursively, every packet of
+    every loop has exactly as many values as the loop has item names -/
+theorem C03_rectangular_iff (cif : Cif) : RectCif cif ↔ ∀ c ∈ cif, RectC c := RectCs_iff cif
+
+theorem C03_rectangular_container (code : Str) (fs : List Container) (ls : List Loop) :
+    RectC (.mk code fs ls) ↔ (∀ l ∈ ls, ∀ p ∈ l.packets, p.length = l.names.length) ∧ ∀ c ∈ fs, RectC c := by
+  rw [RectC_mk, RectCs_iff]
+  rfl
+
+/-- **C03_packets_rectangular** — every option record, every callback policy, every input, every consistent and rectangular
+    initial content of the target: after the parse — completed, stopped by a callback answer (also a negative one), or left
+    through one of the parser's own failure exits — every packet of every loop of every container of the target has exactly as
+    many values as its loop has item names.  This follows the column bookkeeping of parse_loop_packets: header names that were
+    dropped (duplicates, invalid names: their values are parsed and discarded), the packet stored when the column index wraps,
+    and the partial last packet padded with unknown values (CIF_PARTIAL_PACKET) — `Lemmas/ParserRect.packetsLoop_presR`. -/
+theorem C03_packets_rectangular (o : Opts) (pol : Policy) (pre : Cif) (units : Str) (h : OkCif o pre) (hr : RectCif pre) :
+    RectCif (parse o pol pre units).cif :=
+  (parse_okR o pol pre units ⟨h, hr⟩).2
+
 /-- **C03_consistent_after** — every option record, every callback policy, every input, every consistent initial content of the
     target: after the parse — completed, stopped by a callback answer (also a negative one), or left through one of the
-    parser's own failure exits — the target CIF is consistent. -/
+    parser's own failure exits — the target CIF is consistent (`OkCif`: codes and names unique after normalisation, one scalar
+    loop with at most one packet), and when the initial content was rectangular (every packet as wide as its loop's header),
+    so is the result. -/
 theorem C03_consistent_after (o : Opts) (pol : Policy) (pre : Cif) (units : Str) (h : OkCif o pre) :
-    OkCif o (parse o pol pre units).cif :=
-  parse_ok o pol pre units h
+    OkCif o (parse o pol pre units).cif ∧ (RectCif pre → RectCif (parse o pol pre units).cif) :=
+  ⟨parse_ok o pol pre units h, fun hr => C03_packets_rectangular o pol pre units h hr⟩
 
 /-- … in particular when the parse starts with an empty CIF -/
-theorem C03_consistent_after_fresh (o : Opts) (pol : Policy) (units : Str) : OkCif o (parse o pol [] units).cif :=
-  parse_ok o pol [] units ⟨by simp [normCodes], by simp [OkCs]⟩
+theorem C03_consistent_after_fresh (o : Opts) (pol : Policy) (units : Str) :
+    OkCif o (parse o pol [] units).cif ∧ RectCif (parse o pol [] units).cif :=
+  parse_okR o pol [] units ⟨⟨by simp [normCodes], by simp [OkCs]⟩, by simp [RectCif, RectCs]⟩
 
 /-- the invariant is not vacuous: two blocks with the same code are not consistent, nor is a block that defines a name twice -/
 example (o : Opts) : ¬ OkCif o [.mk [97] [] [], .mk [97] [] []] := by
@@ -293,6 +316,14 @@ example (o : Opts) : ¬ OkCif o [.mk [97] [] [], .mk [97] [] []] := by
 example (o : Opts) : ¬ OkCif o [.mk [97] [] [{ category := none, names := [[95, 120]], packets := [] },
     { category := some [], names := [[95, 120]], packets := [] }]] := by
   simp [OkCif, OkCs, OkC, LoopsOk, normNames]
+
+/-- rectangularity is not vacuous: a loop of two names with a packet of one value is not rectangular, also inside a save frame;
+    the packet of two values is -/
+example : ¬ RectCif [.mk [97] [.mk [98] [] [{ category := none, names := [[95, 120], [95, 121]], packets := [[.unk]] }]] []] := by
+  simp [RectCif, RectCs, RectC, LoopsRect, LoopRect]
+
+example : RectCif [.mk [97] [] [{ category := none, names := [[95, 120], [95, 121]], packets := [[.unk, .na]] }]] := by
+  simp [RectCif, RectCs, RectC, LoopsRect, LoopRect]
 
 /-- under the all-accepting callback the parse returns CIF_OK or one of the codes the parser returns on its own -/
 theorem C03_accept_all (o : Opts) (pre : Cif) (units : Str) :
@@ -320,5 +351,13 @@ example :
     (parse C03.opts2 dieAll [] (a!"data_a _x _y")).log.length = 1 ∧
     (parse C03.opts2 (fun i _ => if i = 1 then -1 else 0) [] (a!"data_a _x _y")).rc = 0 ∧
     (parse C03.opts2 (fun i _ => if i = 1 then -1 else 0) [] (a!"data_a _x _y")).log.length = 2 := by decide +kernel
+
+set_option maxRecDepth 100000 in
+/-- the column bookkeeping at work: `loop_ _a _A _b 1 2 3 4` — the second header name is a duplicate (dropped), the last packet is
+    partial: two packets of two values each (`1 3` and `4 ?`), reports CIF_DUP_ITEMNAME and CIF_PARTIAL_PACKET -/
+example :
+    (parse C03.opts2 acceptAll [] (a!"data_a loop_ _a _A _b 1 2 3 4")).cif.map (fun c => c.loops.map (fun l => (l.names.length, l.packets.map List.length)))
+      = [[(2, [2, 2])]] ∧
+    (parse C03.opts2 acceptAll [] (a!"data_a loop_ _a _A _b 1 2 3 4")).log.map (·.code) = [Gen.ErrCodes.CIF_DUP_ITEMNAME, Gen.ErrCodes.CIF_PARTIAL_PACKET] := by decide +kernel
 
 end CifModel
